@@ -2,7 +2,7 @@
 import ast
 import copy
 
-from ..astutil import FuncTree, dominates
+from ..astutil import FuncTree, dominates, inline_temporaries
 from ..common import norm_stmt, site_id
 from ..deps import names_in, base_name, index_names
 from ..index import AnalysisError
@@ -11,7 +11,7 @@ from . import c01, c02
 
 
 def _norm_body(fnode, opt):
-    t = copy.deepcopy(fnode)
+    t = inline_temporaries(fnode)
     kw = fnode.args.kwarg.arg if fnode.args.kwarg else None
 
     class N(ast.NodeTransformer):
@@ -54,15 +54,15 @@ def run(p, report, tier):
                f"{fa.file}:{fa.node.lineno}", a == b,
                detail="identical" if a == b else "the two siblings differ in more than the optimum function")
     for f, opt, other in ((fa, "nanmax", "nanmin"), (fi, "nanmin", "nanmax")):
-        src = ast.unparse(f.node)
-        uses = [n for n in ast.walk(f.node) if isinstance(n, ast.Attribute) and n.attr in ("nanmax", "nanmin", "max", "min",
+        fin = inline_temporaries(f.node)
+        uses = [n for n in ast.walk(fin) if isinstance(n, ast.Attribute) and n.attr in ("nanmax", "nanmin", "max", "min",
                                                                                               "amax", "amin")]
         ok = any(u.attr == opt for u in uses) and not any(u.attr != opt for u in uses)
         report.add("R18.1", f.qual, f"NaN-aware optimum np.{opt}", f"{f.file}:{f.node.lineno}", ok,
                    detail=f"uses {sorted({u.attr for u in uses})}")
         # structure: np.argmax(<noise> * (a == np.nanOPT(a, ..., keepdims=True)), ...)
         ok2 = False
-        for n in ast.walk(f.node):
+        for n in ast.walk(fin):
             if isinstance(n, ast.Call) and c01.callname(n) == "argmax" and n.args and isinstance(n.args[0], ast.BinOp) \
                     and isinstance(n.args[0].op, ast.Mult):
                 for side, oth in ((n.args[0].left, n.args[0].right), (n.args[0].right, n.args[0].left)):
